@@ -12,7 +12,7 @@ RULE = ('G-sel graphs decorated with 0-2 design-variable nodes x both selection-
 TRUSTED = ['the encoding description E (variables, option lists) is read from GraphProcessor.all_des_vars',
            'which valid vector a corrector picks is abstracted: the model only decides membership (decode_witness)']
 PARTIAL = ['connection choices are covered by C10/C11 machinery, not by this check']
-batches = _proc.make_batches('C01', ['complete', 'fast'], 400, 4000, cons_prob=0.25)
+batches = _proc.make_batches('C01', ['complete', 'fast'], 1200, 6000, cons_prob=0.25)
 run_case = _proc.make_run_case(CLAUSES)
 compare = _proc.compare
 shrink_candidates = _proc.shrink_candidates
